@@ -13,22 +13,85 @@ def strip_ops(ops):
     return [dict((k, v) for k, v in op.items() if k not in ("expect", "why")) for op in ops]
 
 
-def gen(fmt, rng, tier):
-    spec = F(fmt).gen(rng, tier, valid_only=True)
-    keyf = {"rpms": lambda o: (o["variant"], o["arch"], o["nevra"].split(":")[-1].split("-")[0] if False else o["nevra"]),
-            "modules": lambda o: (o["variant"], o["arch"], json.dumps(o["uid"], sort_keys=True)),
-            "extra_files": lambda o: (o["variant"], o["arch"], o["path"])}[fmt]
-    seen, ops = set(), []
-    for o in strip_ops(spec["ops"]):
-        # rpms: calls that hit the same entry twice do not commute ("last write wins"): keep the first.  modules / extra_files:
-        # repeated calls are CONTENT (a module added once per category concatenates its rpm list; an extra file listed twice is two
-        # list entries) and `permute` keeps their relative order, so they stay
-        k = keyf(o)
-        if fmt != "rpms" or k not in seen:
-            seen.add(k)
-            ops.append(o)
-    spec["ops"] = ops
+# refusals named by the statement (C12): each makes the call raise and write nothing, whatever the mapping
+REFUSED_KINDS = {"rpms": ["abs_path", "empty_path", "bad_arch", "src_arch", "bad_category", "unparsable", "missing_epoch", "category_disagrees",
+                          "srpm_unparsable"],
+                 "modules": ["bad_uid", "abs_path", "empty_path", "bad_arch", "bad_category", "empty_variant", "empty_koji_tag", "bad_rpms"],
+                 "extra_files": ["abs_path", "empty_path", "bad_arch", "empty_variant", "bad_checksums"]}
+
+
+def cell_of(fmt, op):
+    """the ORDER-SENSITIVE cell a call writes (the quantifier of C08_perm_history_*: calls of one cell keep their relative order,
+    everything else may be rearranged), read off the REAL library: the call is made on a fresh object and the cell is where it
+    wrote - rpms [variant, arch, srpm key, rpm key] (a second write of the slot wins), modules [variant, arch, uid] (repeated adds
+    extend the rpm list), extra_files [variant, arch] (the entry list).  None: the call is refused (it writes nothing; it may stand
+    anywhere).  The model's `Mf.rpmsSlot` / `modulesSlot` / `extraSlot` must agree (driver op c08_history, compared per case)."""
+    Fm = F(fmt)
+    obj = Fm.new()
+    try:
+        Fm.add(obj, op)
+    except Exception:  # noqa
+        return None
+    m = Fm.mapping(obj)
+    try:
+        v = next(iter(m))
+        a = next(iter(m[v]))
+        if fmt == "extra_files":
+            return [v, a]
+        k = next(iter(m[v][a]))
+        if fmt == "modules":
+            return [v, a, k]
+        return [v, a, k, next(iter(m[v][a][k]))]
+    except (StopIteration, TypeError, AttributeError, KeyError):
+        return None
+
+
+def history(fmt, spec):
+    """the base history on a fresh real object: per call its cell and its outcome ("ok" / exception class)"""
+    Fm = F(fmt)
+    obj = Fm.new()
+    cells, outs = [], []
+    for op in spec["ops"]:
+        cells.append(cell_of(fmt, op))
+        try:
+            Fm.add(obj, op)
+            outs.append("ok")
+        except Exception as e:  # noqa
+            outs.append(type(e).__name__)
+    return {"cells": cells, "outcomes": outs}
+
+
+def outcomes_key(fmt, spec):
+    """the refused calls of a history with their exception class, as a multiset: the same for every rearrangement
+    (C08_perm_history_*: every call has the same outcome in both runs; accepted calls are visible in the mapping)"""
+    h = history(fmt, spec)
+    rows = sorted(json.dumps([op, o], sort_keys=True, default=repr) for op, o in zip(strip_ops(spec["ops"]), h["outcomes"]) if o != "ok")
+    return hashlib.sha1("\n".join(rows).encode()).hexdigest()
+
+
+def add_refused(fmt, spec, rng, n, lo=1):
+    """`n` refused calls (one documented precondition broken each) at random positions >= `lo`, in the middle of the history"""
+    Fm = F(fmt)
+    ops = spec["ops"]
+    good = [o for o in ops if cell_of(fmt, o) is not None]
+    for _ in range(n):
+        if not good:
+            break
+        bad = Fm.invalid_op(rng, dict(rng.choice(good)), rng.choice(REFUSED_KINDS[fmt]))
+        bad = strip_ops([bad])[0]
+        if cell_of(fmt, bad) is not None:
+            continue                                   # accepted after all (a corruption that happens to be valid): not a refused call
+        lo_ = min(max(lo, 0), len(ops))
+        ops.insert(rng.randrange(lo_, len(ops)) if len(ops) > lo_ else len(ops), bad)
     return spec
+
+
+def gen(fmt, rng, tier):
+    # same-slot rewrites (rpms: "last write wins"), repeated adds of one module and repeated extra-file entries are CONTENT: they
+    # stay, and `permute` keeps the calls of one cell in their relative order
+    spec = F(fmt).gen(rng, tier, valid_only=True)
+    spec["ops"] = strip_ops(spec["ops"])
+    return add_refused(fmt, spec, rng, rng.choice([0, 1, 1, 2, 3]))
 
 
 KEY_SHAPES = ["Server", "server", "SERVER", "S\u00e9rver", "\U0001F4BF", "ppc", "ppc64", "ppc64le", "None", "null", "0", "1.0", "False",
@@ -41,6 +104,7 @@ def boost(fmt, spec, rng, i):
     import formats.manifest_common as mc
     arches = mc.arches()
     ops = spec["ops"]
+    n0 = len(ops)                                      # `c08_seq` grows an object by the calls appended here: earlier positions stay
     cls = i % 5
     if fmt == "rpms":
         R = F("rpms")
@@ -60,6 +124,18 @@ def boost(fmt, spec, rng, i):
                 ops.append(R.valid_op(rng, s_, "Client", arches[1], 0))
             for j in range(5):
                 ops.append(R.valid_op(rng, srcs[0], "Client", arches[1], j % 2))
+        elif cls in (3, 4):                            # ONE slot written 3 times (the last record must survive in every order), other
+            src = R.gen_source(rng)                    # packages of the same source package and of another variant in between
+            first = R.valid_op(rng, src, "Server", arches[0], 0)
+            ops.append(first)
+            for j in range(2):
+                ops.append(R.valid_op(rng, src, rng.choice(["Server", "Client"]), arches[0], j))
+                again = dict(first)
+                again["path"] = "rewrite%d/%s" % (j, first["path"])
+                again["sigkey"] = rng.choice(R.SIGKEYS[:4])
+                ops.append(again)
+            if cls == 4:
+                ops.append(dict(first))                # and the very first record once more at the end
     elif fmt == "modules":
         M = F("modules")
         if cls in (0, 3):                              # ONE module added once per category, the rpm lists overlap (repeated entries), >= 3 distinct
@@ -105,25 +181,30 @@ def boost(fmt, spec, rng, i):
             for a in sorted(arches[:7], reverse=True)[:4]:
                 ops.append(E.valid_op(rng, "Client", a))
     spec["ops"] = strip_ops(ops)
+    if i % 2 == 0:
+        add_refused(fmt, spec, rng, 1 + i % 3, lo=n0 + 1)     # refused calls in the middle of the history
     return spec
 
 
-def permute(fmt, spec, rng):
-    """rpms: any order of the add calls (they land in dicts).  modules / extra_files: the calls of one (variant, arch) table keep
-    their relative order (extra-file entries are a caller-ordered list; repeated adds of one module concatenate its caller-ordered
-    rpm list), the tables are interleaved in any order"""
-    if fmt == "rpms":
-        rng.shuffle(spec["ops"])
-        return spec
-    cells = {}
-    for o in spec["ops"]:
-        cells.setdefault((o["variant"], o["arch"]), []).append(o)
-    labels = [k for k, l in cells.items() for _ in l]
-    rng.shuffle(labels)
-    pos = dict((k, 0) for k in cells)
+def permute(fmt, spec, rng, reduce=False):
+    """a random rearrangement of the history that keeps the calls of every order-sensitive cell (`cell_of`) in their relative order:
+    any order of variants, arches, source packages, packages, modules; refused calls anywhere - the quantifier of
+    C08_perm_history_rpms / _modules / _extra_files (`SameOrder slot h h'`)"""
+    groups, keys = {}, []
+    for i, o in enumerate(spec["ops"]):
+        c = cell_of(fmt, o)
+        k = json.dumps(c) if c is not None else "refused#%d" % i
+        keys.append(k)
+        groups.setdefault(k, []).append(o)
+    if reduce:
+        # rpms: only the LAST write of a slot is content
+        groups = dict((k, l[-1:]) for k, l in groups.items())
+        keys = list(groups)
+    rng.shuffle(keys)
+    pos = dict((k, 0) for k in groups)
     out = []
-    for k in labels:
-        out.append(cells[k][pos[k]])
+    for k in keys:
+        out.append(groups[k][pos[k]])
         pos[k] += 1
     spec["ops"] = out
     return spec
@@ -205,6 +286,25 @@ def features(fmt, spec):
             f.append("extra_files:checksum dict >=3 unsorted")
         if any(isinstance(o.get("checksums"), dict) and len(set(k.lower() for k in o["checksums"])) < len(o["checksums"]) for o in ops):
             f.append("extra_files:checksum keys differing only in case")
+    cs = [cell_of(fmt, o) for o in ops]
+    if any(c is None for c in cs):
+        f.append("%s:history with a refused call" % fmt)
+    if any(c is None and any(x is not None for x in cs[:i]) and any(x is not None for x in cs[i + 1:]) for i, c in enumerate(cs)):
+        f.append("%s:refused call in the MIDDLE of the history" % fmt)
+    by_cell = {}
+    for c, o in zip(cs, ops):
+        if c is not None:
+            by_cell.setdefault(json.dumps(c), []).append(o)
+    if fmt == "rpms" and any(len(l) >= 2 and any(x != l[0] for x in l[1:]) for l in by_cell.values()):
+        f.append("rpms:one slot written >= 2 times with different records (last write wins)")
+    if fmt == "rpms" and any(len(l) >= 3 for l in by_cell.values()):
+        f.append("rpms:one slot written >= 3 times")
+    if fmt == "modules" and any(len(l) >= 2 for l in by_cell.values()):
+        f.append("modules:one module entry extended by >= 2 adds")
+    if fmt == "extra_files" and any(len(l) >= 2 for l in by_cell.values()):
+        f.append("extra_files:same-cell sequence (>= 2 entries appended to one [variant][arch] list)")
+    if len(by_cell) >= 2 and any(len(l) >= 2 for l in by_cell.values()):
+        f.append("%s:ordered cell interleaved with other cells" % fmt)
     if len(ops) >= 3:
         f.append("%s:>=3 add calls" % fmt)
     if len(set((o["variant"], o["arch"]) for o in ops)) >= 2:
@@ -220,6 +320,16 @@ def model_requests(fmt, spec):
     return [{"op": "bld_roundtrip", "args": {"kind": fmt, "version": "0.0", "compose": spec["compose"], "ops": strip_ops(spec["ops"])}}]
 
 
+def model_history_request(fmt, spec):
+    """per call of the base history: the model's cell (`Mf.*Slot`) and outcome from a fresh manifest"""
+    return {"op": "c08_history", "args": {"kind": fmt, "ops": strip_ops(spec["ops"])}}
+
+
+def model_history(o):
+    outs = ["ok" if "ok" in x else str(x.get("err")) for x in o["outcomes"]]
+    return {"cells": o["slots"], "outcomes": outs}
+
+
 def model_text(fmt, o):
     out = o.get("out", {})
     if "ok" in out:
@@ -228,7 +338,20 @@ def model_text(fmt, o):
 
 
 def order_kept(fmt, spec, text):
-    """a module's rpm list is written in the caller's order (calls with a unique target only)"""
+    """a module's rpm list is written in the caller's order (calls with a unique target only); the extra-file entries of one
+    [variant][arch] are written in the order of the accepted calls"""
+    if fmt == "extra_files":
+        doc = json.loads(text)
+        want = {}
+        for o in spec["ops"]:
+            c = cell_of(fmt, o)
+            if c is not None:
+                want.setdefault(tuple(c), []).append(o["path"])
+        for (v, a), paths in want.items():
+            got = [e.get("file") for e in doc["payload"]["extra_files"].get(v, {}).get(a, [])]
+            if got != paths:
+                return "the entries of extra_files[%r][%r] were added in the order %r and are written in the order %r" % (v, a, paths, got)
+        return None
     if fmt != "modules":
         return None
     doc = json.loads(text)
@@ -244,7 +367,7 @@ def order_kept(fmt, spec, text):
     given = []
     for o in spec["ops"]:
         r = o.get("rpms")
-        if isinstance(r, dict):
+        if isinstance(r, dict) and cell_of(fmt, o) is not None:
             given.append(list(r.get("list") or r.get("tuple") or []))
     def sub(small, big):
         n = len(small)
